@@ -37,7 +37,12 @@ impl GetIter {
     // Save oid for next request.
     // Return true if next request may be send or return false otherwise
     pub fn set_next_oid(&mut self, oid: &SnmpOid) -> bool {
-        if self.start_oid.as_borrowed().starts_with(oid) {
+        // The oid must belong to the requested subtree
+        // and must follow the previous one, otherwise
+        // a misbehaving agent may loop the walk forever.
+        if self.start_oid.as_borrowed().starts_with(oid)
+            && oid.cmp_subids(&self.next_oid.as_borrowed()) == std::cmp::Ordering::Greater
+        {
             self.next_oid.store(oid);
             true
         } else {
